@@ -37,4 +37,4 @@ Extraction "moc_model.ml"
   AsciiCodec.to_ascii AsciiCodec.from_ascii AsciiCodec.isort_e AsciiCodec.st_to_ascii AsciiCodec.st_from_ascii AsciiCodec.to_ascii_stream AsciiCodec.from_ascii_stream
   AsciiMoc.elems_of_cells AsciiMoc.ranges_of_elems
   FitsCodec.fits_write FitsCodec.fits_read FitsCodec.fits_write_st FitsCodec.fits_write_nuniq FitsCodec.mom_read FitsCodec.sky_read
-  MocSetBytes.file_bytes MocSetBytes.decode_file MocSetBytes.append_steps.
+  MocSetBytes.file_bytes MocSetBytes.decode_file MocSetBytes.append_steps MocSetBytes.purge_tmp_files MocSetBytes.kept_of.
